@@ -1875,9 +1875,17 @@ func (c *codegen) emitBinaryExpr(n *ast.BinaryExpr, needJump bool, cond bool, jm
 		c.setLabel(end)
 
 	default:
-		ast.Walk(c, n.X)
-		ast.Walk(c, n.Y)
 		typ := c.typeOf(n.X)
+		// Byte arrays are Buffers, the VM compares those by reference, Go compares arrays by value.
+		byValue := (n.Op == token.EQL || n.Op == token.NEQ) && isByteArray(typ)
+		ast.Walk(c, n.X)
+		if byValue {
+			emit.Instruction(c.prog.BinWriter, opcode.CONVERT, []byte{byte(stackitem.ByteArrayT)})
+		}
+		ast.Walk(c, n.Y)
+		if byValue {
+			emit.Instruction(c.prog.BinWriter, opcode.CONVERT, []byte{byte(stackitem.ByteArrayT)})
+		}
 		if !needJump {
 			c.emitToken(n.Op, typ)
 			return
